@@ -210,7 +210,7 @@ TLE_TXT = """ISS (ZARYA)
 2 25544  51.6421 236.2139 0003381  47.8509  47.6767 15.54198229111731"""
 
 
-def _make(prop):
+def _make(prop, epoch=None):
     from beyond.orbits import Orbit
     from beyond.dates import Date, timedelta
     from beyond.io.tle import Tle
@@ -220,7 +220,7 @@ def _make(prop):
         orb = Tle(TLE_TXT).orbit()
         return orb, orb.date
     r0, v0 = _kep2cart(6.8e6, 0.001, 0.9, 1.0, 2.0, 0.5, Earth.mu)
-    d0 = Date(2018, 5, 4, 13, 20, 47)
+    d0 = Date(2018, 5, 4, 13, 20, 47) if epoch is None else epoch
     if prop in ("kepler", "j2", "none"):
         from beyond.propagators.kepler import Kepler
         from beyond.propagators.j2 import J2
@@ -335,6 +335,41 @@ def _(c):
         pts = list(src.iter(dates=Date.range(d0 + timedelta(seconds=100), d0 + timedelta(seconds=900), timedelta(seconds=200), inclusive=True)))
     c.ensure("exactly_those_dates", len(pts) == len(dates) and all(abs((p.date - d).total_seconds()) < 2e-6 for p, d in zip(pts, dates)))
 
+
+
+def _grid_target(tier, rng):
+    """every propagator x the way the target is given {a Date, a timedelta from the epoch} x epochs {2018-05-04, one minute before the leap second of 2016-12-31 (real IERS
+    tables: the target lies beyond it)}"""
+    for p in range(len(PROPS)):
+        for how in (0, 1):
+            for ep in (0, 1):
+                yield {"prop": p, "how": how, "epoch": ep}
+
+
+@contract("C08", "target.native", funcs=[f"{BASE}:AnalyticalPropagator.propagate", "beyond.propagators.none:NonePropagator.propagate", "beyond.propagators.cw:ClohessyWiltshire._propagate",
+                                          "beyond.propagators.kepler:Kepler.propagate", "beyond.propagators.j2:J2.propagate"], grid=_grid_target, level="bounded")
+def _(c):
+    """bounded: a propagation returns a state dated at the requested date -- a Date, the requested instant -- whether the target is given as a Date or as a duration from
+    the epoch, also when a leap second lies between the epoch and the target; both ways of giving the target lead to the same state"""
+    from beyond.dates import Date, timedelta
+    from contracts.eopcfg import use_eop
+    prop = PROPS[c.integer("prop")]
+    ep = c.integer("epoch")
+    c.require(not (ep and prop in ("sgp4", "ephem")) and prop != "ephem")   # (an ephemeris has no epoch a duration could be counted from)
+    use_eop(real=bool(ep))
+    try:
+        src, d0 = _make(prop, Date(2016, 12, 31, 23, 59, 0) if ep else None)
+        dur = timedelta(seconds=120)
+        # the requested date: the epoch plus 120 s on the epoch's own clock (the library's date arithmetic, C03: across a leap second a UTC clock shows 120 s
+        # for 121 s elapsed)
+        want = d0 + dur
+        got = src.propagate(dur) if c.integer("how") else src.propagate(want)
+        c.ensure("dated_at_the_requested_instant", isinstance(got.date, Date) and abs((got.date - want).total_seconds()) <= 2e-6)
+        other = src.propagate(want) if c.integer("how") else src.propagate(dur)
+        same = isinstance(other.date, Date) and bool(np.allclose(np.asarray(got.copy(form="cartesian"), dtype=float), np.asarray(other.copy(form="cartesian"), dtype=float), rtol=1e-9, atol=1e-6))
+        c.ensure("date_or_duration_same_state", same)
+    finally:
+        use_eop(real=False) if False else None
 
 def _grid_hist(tier, rng):
     """every propagator x every ordering of up to 3 prior calls drawn from {propagate(d1), propagate(d2 before epoch), full iteration, iteration with a
